@@ -1,6 +1,6 @@
 """C25 -- signal names and numbers form a stable one-to-one registry, even under threads."""
 import miros.event as EV
-from vt import detsched as ds
+from vt import detsched as ds, sysx
 
 ID = 'C25'
 ENGINE = 'detsched'
@@ -12,10 +12,10 @@ RULE = ('(sequential part) random name sequences registered through append, attr
         'build events by number on a FRESH SignalSource substituted for miros.event.signals, with detsched switching at every bytecode '
         'boundary inside miros/event.py (seeded random / PCT); any exception in a thread, any pair of names sharing a number, any number '
         'that differs between two observations, or an Event whose (signal, signal_name) pair disagrees with the final registry is a '
-        'violation. distinct_nontrivial = distinct context-switch sequences with >= 2 threads registering')
+        'violation. ' + sysx.RULE_TEXT % (1, 2) + 'distinct_nontrivial = distinct context-switch sequences with >= 2 threads registering')
 CASES = {'quick': 1500, 'thorough': 100000}
-BUDGET = {'quick': 50, 'thorough': 300}
-REQUIRE = {'concurrent_runs': 500, 'sequential_ops': 10000, 'concurrent_registrations': 3000}
+BUDGET = {'quick': 150, 'thorough': 600}
+REQUIRE = {'concurrent_runs': 500, 'sequential_ops': 10000, 'concurrent_registrations': 3000, 'systematic_schedules': 500, 'systematic_scenarios_exhausted': 2}
 ASSUME = ['each scheduled run works on a fresh SignalSource (the registry only grows; opcode-level runs over a large registry are too slow)']
 ANNOUNCE_CASES = True
 BUILTINS = ['ENTRY_SIGNAL', 'EXIT_SIGNAL', 'INIT_SIGNAL', 'REFLECTION_SIGNAL', 'EMPTY_SIGNAL', 'SEARCH_FOR_SUPER_SIGNAL',
@@ -98,16 +98,24 @@ def sequential_case(ctx, rng):
     EV.signals = saved
 
 
+SYS = {'quick': (8, 1, 3000, 75.0), 'thorough': (32, 2, 100000, 150.0)}     # systematic cases, preemption bound, schedule cap, seconds cap (per scenario)
+
+
 def run_case(ctx, n):
+  sysx.run_case(ctx, n, SYS, scenario)
+
+
+def scenario(ctx, n):
   rng = ctx.rng('case', n)
-  if n % 3 == 0:
+  small = getattr(ctx, 'small', False)
+  if n % 3 == 0 and not small:
     return sequential_case(ctx, rng)
-  nthreads = rng.randint(2, 4)
-  pool = ['N%d' % i for i in range(rng.randint(2, 6))]
+  nthreads = 2 if small else rng.randint(2, 4)
+  pool = ['N%d' % i for i in range(rng.randint(2, 3) if small else rng.randint(2, 6))]
   plans = []
   for t in range(nthreads):
     plan = []
-    for _ in range(rng.randint(1, 4)):
+    for _ in range(rng.randint(1, 2) if small else rng.randint(1, 4)):
       nm = rng.choice(pool) if rng.random() < 0.7 else 'T%d_%d' % (t, rng.randrange(3))
       plan.append((rng.choice(['append', 'attr', 'event', 'event+number']), nm))
     plans.append(plan)
